@@ -12,6 +12,7 @@ import SugarModel.Driver.PersistLines
 import SugarModel.Driver.SchedLines
 import SugarModel.Driver.PubSubLines
 import SugarModel.Driver.EvictLines
+import SugarModel.Driver.RaftLines
 open Sugar Sugar.Driver
 
 def showVal (v : Val) : String := reprStr v
@@ -231,6 +232,71 @@ def verdict (t : Transition) : String :=
   | some v => v
   | none => first
 
+
+/-! ### raft suite: one log entry on one node's state machine (F lines) -/
+
+open Sugar.Raft in
+def fNodeWith (e : LogEntry) (n : FNode) (order : Nat) : String :=
+  let obs? : Option Observed := match n.kind with
+    | "ok" => some (.ok n.payload)
+    | "err" => some (.err n.payload)
+    | "panic" => some .panic
+    | _ => none                                  -- hang
+  let env : Ctx := { db := e.db, now := n.now, order := order, hint := match obs? with
+    | some o => hintOf o
+    | none => [] }
+  -- every node of an F experiment is the leader of its own single-node cluster
+  match applyEntry .leader env n.pre e with
+  | none => "SKIP unmodelled-command"
+  | some (s', out) =>
+    match out, obs? with
+    | .unmod why, _ => s!"SKIP unmod:{why.replace " " "_"}"
+    | .hang, none => "OK hang"
+    | .hang, some o => s!"DIFF outcome model=deadlock impl={reprStr o}"
+    | _, none => "DIFF outcome model=answers impl=hang"
+    | .panic w, some o =>
+      if o != .panic then s!"DIFF outcome model=panic({w.replace " " "_"}) impl={reprStr o}"
+      else match stateDiff (canonState s') (canonState n.post) with
+        | some d => s!"DIFF state-after-panic {d}"
+        | none => "OK panic"
+    | .done r, some o =>
+      let replyDiff : Option String :=
+        match r, o with
+        | .err a, .err c => if a == c then none else some s!"errtext model={toHex a} impl={toHex c}"
+        | .err a, .ok c => some s!"outcome model=err({toHex a}) impl=ok({toHex c})"
+        | r, .ok c => if replyMatches r c then none else some s!"reply model={showRes r} impl={toHex c}"
+        | r, .err c => some s!"outcome model={showRes r} impl=err({toHex c})"
+        | r, .panic => some s!"outcome model={showRes r} impl=panic"
+      match replyDiff with
+      | some d => s!"DIFF {d}"
+      | none => match stateDiff (canonState s') (canonState n.post) with
+        | some d => s!"DIFF state {d}"
+        | none => "OK"
+
+open Sugar.Raft in
+def fNode (e : LogEntry) (n : FNode) : String :=
+  let k := ((e.cmd.drop 1).eraseDups.length).min 4
+  let tries := [1, 1, 2, 6, 24].getD k 1
+  let first := fNodeWith e n 0
+  if !first.startsWith "DIFF" then first else
+  match (List.range tries).drop 1 |>.findSome? fun o =>
+      let v := fNodeWith e n o
+      if v.startsWith "DIFF" then none else some v with
+  | some v => v
+  | none => first
+
+def fVerdict (toks : List String) : String :=
+  match runP pFLine toks with
+  | .error e => s!"{toks.getD 1 "?"} BAD {e}"
+  | .ok l =>
+    let vs : List String := l.nodes.map (fNode l.entry)
+    let model := match vs.find? (fun (v : String) => v.startsWith "DIFF") with
+      | some d => d
+      | none => match vs.find? (fun (v : String) => v.startsWith "SKIP") with
+        | some k => k
+        | none => "OK"
+    s!"{l.seq} {model} ## rep={fSpec l} rcls={fClass l}"
+
 /-- C12 on one command: the bytes the connection loop would write are exactly one well-formed RESP value
     (`-Error <text>\r\n` for a handler error), and the handler does not panic (no `recover` in the
     server: a panic in a connection goroutine ends the process) -/
@@ -279,6 +345,15 @@ partial def loop (h : IO.FS.Stream) (out : IO.FS.Stream) : IO Unit := do
     loop h out
   else if line.startsWith "G " then
     out.putStrLn (gVerdict ((line.splitOn " ").filter (· ≠ "")))
+    loop h out
+  else if line.startsWith "F " then
+    out.putStrLn (fVerdict ((line.splitOn " ").filter (· ≠ "")))
+    loop h out
+  else if line.startsWith "K " then
+    out.putStrLn (kLineVerdict ((line.splitOn " ").filter (· ≠ "")))
+    loop h out
+  else if line.startsWith "Q " then
+    out.putStrLn (qLineVerdict ((line.splitOn " ").filter (· ≠ "")))
     loop h out
   else
   if line.startsWith "U " || line.startsWith "H " then
